@@ -48,6 +48,7 @@ class C01(HistoryProperty):
     def gen_case(self, rng, tier):
         cfg = gen.swarm_cfg(rng, on=("dsclass", "namespace", "fapp"))
         cfg["namespace_keys"] = True
+        cfg["deep_default_section"] = rng.random() < 0.3  # a default SECTION three levels down where callers put a plain value
         cfg["user_evaluatables"] = rng.random() < 0.4  # user-defined Evaluatable subclasses in the place of plain Options
         cfg["labrea_keys"] = rng.random() < 0.4  # dictionaries that carry the reserved LABREA section (logging / effects switches)
         if cfg["labrea_keys"]:
